@@ -87,6 +87,8 @@ def item(case, run):
         return m, sv(run["outcome"])
     if k == "dev":
         return f"sv_dres (post_init {dparams(case['params'])})", sv(run["outcome"])
+    if k in ("mc", "auto") and run.get("nodev"):
+        return "(SL [SL [SZ 96]; SL [SZ 96]])", sv([[96], [96]])
     if k == "mc":
         dv = gdev(case["device"])
         sp = coq_opt(case["spacing"], coq_float)
